@@ -35,7 +35,9 @@ CLAIMS = {
         "both factor orders, with and without size keyword. Theorems: Sweep.c02_sweep (about 108000 instances x NASM/STRICT SIB handling on the model, "
         "by evaluation; Sweep.c02_sweep_mixed: the two mixed settings of the SIB options on every instance without base or with a stack-pointer index), "
         "C02.decoder_reads_every_operand (kernel-checked, for EVERY well-formed memory operand - any base, index, scale, displacement, address size - "
-        "the canonical ModRM/SIB/displacement encoding is read back by the reference decoder as that operand), C02.disp_field_reads_back + X86.leVal_assembleConst + toSigned_roundtrip (kernel-checked, for EVERY displacement value: the "
+        "the canonical ModRM/SIB/displacement encoding is read back by the reference decoder as that operand), C02.mov_load_every_disp (kernel-checked, "
+        "SYMBOLIC in d: for each of the 16 base registers and EVERY d in -2^31..2^31-1 the model emits for `mov rax, [base+d]` exactly that canonical "
+        "encoding - Lemmas.MemLoad.mem_bytes / memBytes_canonical), C02.disp_field_reads_back + X86.leVal_assembleConst + toSigned_roundtrip (kernel-checked, for EVERY displacement value: the "
         "bytes the model emits read back as the value and every signed disp8/disp32 is recovered), C11.swap_same_address / nobase_scale*_same_address "
         "(the NASM rewritings keep the address for every register valuation). Memory forms also store a small negative immediate. Tie: the family on the C implementation (thorough: all 17x16x4x13x2 "
         "shapes for mov, lea, paddb, vaddpd) incl. [base+rsp], [1*rsp+disp] shapes, option bytes NASM/STRICT and both mixed SIB settings, decoded and "
@@ -80,7 +82,8 @@ CLAIMS = {
         "reaches the encoder unchanged, also with leading zeros), C05.rel_branch_every_d (kernel-checked, SYMBOLIC in d: for every relative-branch row "
         "of the regenerated table - Lemmas.Branch.relKeys_classified puts each into the jmp/jcc, call/xbegin or jrcxz shape - EVERY d in "
         "-2^31..2^31-1, with and without short/long, every option byte: rel8, rel32 or rejection exactly as stated, displacement field = d's two's "
-        "complement). Register, memory and far-memory targets are instances of the C01/C02 families (call, jmp, callf, jmpf).",
+        "complement), and the same at the TEXT level (C05.rel_branch_text_dec / _neg_dec / _hex / _neg_hex: each of the 20 relative-branch mnemonics, "
+        "no keyword / short / long, four spellings with leading zeros, through filter, tokenizer and lookups - Lemmas.BranchText.branch_line). Register, memory and far-memory targets are instances of the C01/C02 families (call, jmp, callf, jmpf).",
    note="Sweep by evaluation (native_decide axiom). 'short' on call/xbegin (no rel8 form exists) is not judged.",
    technique="Lean 4 reference decoder; finite-domain theorem (native_decide) + two's-complement lemmas for all displacements; differential run with decoding oracle",
    design="8/C05"),
